@@ -119,6 +119,9 @@ func (e *Env) NextVer() int {
 	return e.ver
 }
 
+// LastVer returns the content version used by the last Set.
+func (e *Env) LastVer() int { return e.ver }
+
 // regs renders region lists. Values that can only come from a garbage state (the state after
 // a known finding, e.g. a header read through a dead mapping) are clamped so that the judge
 // can still build the page sets; such a state deviates from the model anyway.
